@@ -308,24 +308,31 @@ def readKind (s : Stream) : (Kind × Nat × Option Err) × Stream :=
       | (.error e, s) => ((.list, 0, some e), s)
       | (.ok n, s) => ((.list, n, if n < 56 then some .canonSize else none), s)
 
+/-- the innermost list has been read to its end -/
+def atEnd (s : Stream) : Bool :=
+  match s.stack with
+  | (pos, size) :: _ => pos == size
+  | [] => false
+
+/-- the size checks of Stream.Kind: top level against the input limit, inside a list against the list -/
+def limitErr (s : Stream) (sz : Nat) : Option Err :=
+  match s.stack with
+  | [] => if sz > s.rest.length then some .valueTooLarge else none
+  | (pos, size) :: _ => if sz > size - pos then some .elemTooLarge else none
+
 /-- Stream.Kind -/
 def kindOf (s : Stream) : (Kind × Nat × Option Err) × Stream :=
   match s.kind with
   | some k => ((k, s.size, s.kinderr), s)
   | none =>
-    let s := { s with kinderr := none }
-    let atEnd := match s.stack with
-      | (pos, size) :: _ => pos == size
-      | [] => false
-    if atEnd then ((.byte, 0, some .eol), s)
+    let s0 : Stream := { s with kinderr := none }
+    if atEnd s0 then ((.byte, 0, some .eol), s0)
     else
-      let ((k, sz, e), s) := readKind s
-      let e := match e with
+      let r := readKind s0
+      let e := match r.1.2.2 with
         | some e => some e
-        | none => match s.stack with
-          | [] => if sz > s.rest.length then some Err.valueTooLarge else none
-          | (pos, size) :: _ => if sz > size - pos then some Err.elemTooLarge else none
-      ((k, sz, e), { s with kind := some k, size := sz, kinderr := e })
+        | none => limitErr r.2 r.1.2.1
+      ((r.1.1, r.1.2.1, e), { r.2 with kind := some r.1.1, size := r.1.2.1, kinderr := e })
 
 /-- Stream.Bytes -/
 def sBytes (s : Stream) : Except Err Bytes × Stream :=
@@ -420,21 +427,28 @@ def decByteArr (n : Nat) (s : Stream) : DecR :=
       | (.ok b, s) => if single7 b then (.bytes b, some .canonSize, s) else (.bytes b, none, s)
   | ((.list, _, none), s) => (z, some .expectedString, s)
 
+/-- decodeInt with its error ignored (the time decoder): the value, or 0 -/
+def intOr0 (r : DecR) : Int × Stream :=
+  match r with
+  | (.i v, none, s) => (v, s)
+  | (_, _, s) => (0, s)
+
 def decTime (s : Stream) : DecR :=
   let z : Val := .time (-62135596800) 0
   match sList s with
   | (.error e, s) => (z, some e, s)
   | (.ok _, s) =>
-    let (sec, s) := match decInt 64 s with
-      | (.i v, none, s) => (v, s)
-      | (_, _, s) => (0, s)
-    let (nsec, s) := match decInt 32 s with
-      | (.i v, none, s) => (v, s)
-      | (_, _, s) => (0, s)
-    if nsec < 0 ∨ 999999999 < nsec then (z, some .badTime, s)
+    let a := intOr0 (decInt 64 s)
+    let b := intOr0 (decInt 32 a.2)
+    if b.1 < 0 ∨ 999999999 < b.1 then (z, some .badTime, b.2)
     else
-      let (e, s) := sListEnd s
-      (.time sec nsec, e, s)
+      let r := sListEnd b.2
+      (.time a.1 b.1, r.1, r.2)
+
+def keyBytes (k : Val) : Bytes :=
+  match k with
+  | .bytes b => b
+  | _ => []
 
 /-- the entry loop of the map decoder: `cnt` further entries -/
 def decMapEntries : Nat → List (Bytes × Val) → Stream → Except Err (List (Bytes × Val)) × Stream
@@ -446,8 +460,7 @@ def decMapEntries : Nat → List (Bytes × Val) → Stream → Except Err (List 
       match decBigPtr s with
       | (_, some e, s) => (.error e, s)
       | (v, none, s) =>
-        let kb := match k with | .bytes b => b | _ => []
-        decMapEntries cnt (mapPut kb v acc) s
+        decMapEntries cnt (mapPut (keyBytes k) v acc) s
 
 def decMap (s : Stream) : DecR :=
   let z : Val := .map [] []
@@ -459,8 +472,10 @@ def decMap (s : Stream) : DecR :=
       (z, e, s)
     else match decInt 64 s with
       | (.i len, none, s) =>
-        -- `for len > 0`: every entry consumes at least 21 bytes, so more than rest.length iterations cannot succeed
-        let cnt := if len ≤ 0 then 0 else min len.toNat (s.rest.length + 1)
+        -- fix 8c7e349: an entry takes at least 22 bytes of the list, a count the list cannot hold is rejected
+        -- before it sizes the map (`len < 0 || uint64(len) > size/22`)
+        if len < 0 ∨ len.toNat > sz / 22 then (z, some .tooLong, s) else
+        let cnt := len.toNat
         match decMapEntries cnt [] s with
         | (.error e, s) => (z, some e, s)
         | (.ok kvs, s) =>
@@ -576,10 +591,7 @@ def decV (env : Env) : Nat → Ty → Stream → DecR
       | (v, none, s) => (v, none, s)
       | (v, some er, s) => ((if atomic then zeroV env 64 e else v), some er, s)
     | .iface impl =>
-      let atEnd := match s.stack with
-        | (pos, size) :: _ => pos == size
-        | [] => false
-      if atEnd then (.nil, some .eol, s)
+      if atEnd s then (.nil, some .eol, s)
       else match readByte s with
         | (.error e, s) => (.nil, some e, s)
         | (.ok b0, s) =>
@@ -589,14 +601,17 @@ def decV (env : Env) : Nat → Ty → Stream → DecR
             | (.ok bs, s) =>
               match env.byDisfix? (b0 :: bs) with
               | none => (.nil, some .unknownPrefix, s)
-              | some r => match r.ty with
-                | none => (.nil, some .panic, s)     -- a registered type that is not assignable: rv.Set panics
-                | some id =>
-                  -- the error of the inner decoder is DROPPED (cdc.go:1184)
-                  let (v, er, s) := decV env f (.ref id) s
-                  if er = some .panic then (.nil, some .panic, s)
-                  else if impl.contains r.idx then (.iface r.idx v, none, s)
-                  else (.nil, some .panic, s)
+              | some r =>
+                -- fix 2f1154b: the prefix is looked up in the global registry; a type that is not assignable to the
+                -- target interface is an error, reported before anything of the concrete value is read
+                if !impl.contains r.idx then (.nil, some .unknownPrefix, s)
+                else match r.ty with
+                  | none => (.nil, some .unknownPrefix, s)
+                  | some id =>
+                    -- the error of the inner decoder is DROPPED (cdc.go: `info.decoder(s, crv)`), the half-built
+                    -- object is stored
+                    let (v, _, s) := decV env f (.ref id) s
+                    (.iface r.idx v, none, s)
     | .ref id => match env.def? id with
       | some t' => decV env f t' s
       | none => (.nil, some .unsupported, s)
